@@ -56,7 +56,7 @@ def _copy_if_changed(src: pathlib.Path, dst: pathlib.Path) -> bool:
     except OSError:
         pass
     dst.parent.mkdir(parents=True, exist_ok=True)
-    tmp = dst.with_name(dst.name + ".tmp")
+    tmp = dst.with_name("%s.%d.tmp" % (dst.name, os.getpid()))
     shutil.copy2(src, tmp)
     os.replace(tmp, dst)
     return True
@@ -208,7 +208,7 @@ def run(binary, requests, timeout_s=30, stack_mb=64, *, mem_limit_mb=4096):
 
     results: dict = {}
     tmp_parent = binary.parent / "tmp"
-    tmp_parent.mkdir(parents=True, exist_ok=True)
+    os.makedirs(tmp_parent, exist_ok=True)
     tmp = pathlib.Path(tempfile.mkdtemp(prefix="run-", dir=tmp_parent))
     env = dict(os.environ)
     env.update(RUST_BACKTRACE="0", PDL_DRV_TMP=str(tmp))
@@ -222,11 +222,7 @@ def run(binary, requests, timeout_s=30, stack_mb=64, *, mem_limit_mb=4096):
                 timeout_s, stack_mb, mem_limit_mb,
             )
     finally:
-        shutil.rmtree(tmp, ignore_errors=True)
-        try:
-            tmp_parent.rmdir()  # only succeeds when no concurrent run() uses it
-        except OSError:
-            pass
+        shutil.rmtree(tmp, ignore_errors=True)   # the parent stays: removing it races with concurrent run()s
     return results
 
 
